@@ -241,3 +241,10 @@ SWEEP = ["logging/test_async_file_appender.cpp",
          "logging/test_log_entry.cpp",
          "logging/test_log_stream.cpp",
          "logging/test_async_log_stream.cpp"]
+
+
+# name anchors (validated by tools/rename_sweep.py; a vanished name is exit 2, see core.check_anchor_names)
+ANCHORS = {
+    'overflow_page_table': ['^babylon::LogStreamBuffer(<|$)'],
+    'pages_append_to_iovec': ['^babylon::LogEntry(<|$)'],
+}
